@@ -39,7 +39,7 @@ Grow(q, i, n, style, forest, salt) ==
 
 BigInit == \E j \in 1..Instances:
              \* (stars and chains at full size: hundreds of siblings, hundreds of levels)
-             /\ k = IF j % 6 \in {4, 5} THEN BigMax - (j \div 6) ELSE Pick(BigMin..BigMax, j)
+             /\ k = IF j % 6 \in {4, 5} THEN BigMax - ((j \div 6) % 10) ELSE Pick(BigMin..BigMax, j)
              /\ p = Grow([i \in 1..k |-> 0], 2, k, j % 6, ~TreesOnly /\ j % 5 = 0, j)
              /\ zlast = [q |-> "init"]
 
